@@ -1,7 +1,7 @@
 (** C07 — proofs, part 4: the entry points.  Removal of empty sequences, num_threads = min(p, total),
     the cursor write-back, the sequential fall-back. *)
 From Coq Require Import List Bool Arith ZArith Lia Sorting.Sorted Sorting.Permutation.
-From TLXV Require Import Common.Order C07.SMerge C07.PMWM C07.PMWMProofs C07.PMWMExact C07.PMWMSampling.
+From TLXV Require Import Common.Order C07.SMerge C07.PMWM C07.PMWMProofs C07.PMWMExact C07.PMWMSampling C07.SortedPerm.
 Import ListNotations.
 
 Section Top.
@@ -9,7 +9,7 @@ Section Top.
   Variable ltb : A -> A -> bool.
   Hypothesis Hswo : SWO ltb.
   Variable partition : list (list A) -> Z -> list nat.
-  Variable seqmerge : bool -> bool -> list (list A) -> nat -> list A * list nat.
+  Variable seqmerge : bool -> option (list A) -> list (list A) -> nat -> list A * list nat.
 
   Notation smerge := (smerge ltb).
   Notation sorted := (Sorted (sorted_rel ltb)).
@@ -298,25 +298,59 @@ Section Top.
                (good_zeros ltb ne) C ltac:(lia) R).
   Qed.
 
+  (** ** Unstable variants, complete.  What the property fixes for an unstable merge is the sequence of element
+      VALUES up to the comparator's equivalence (which of several equivalent elements comes first is left open):
+      the output is, position by position, equivalent to the first [size] elements of the stable merge -- the
+      output of the sequential merge -- because both are sorted permutations of the same multiset.  Together
+      with the windows, the cursors and the thread count. *)
+  Definition parallel_result_unstable_full (seqs : list (list A)) (size p : nat) (r : option (@pres A)) : Prop :=
+    exists ts cur,
+      r = Some {| p_threads := ts; p_cursors := cur; p_ret := size |} /\
+      contiguous ts 0 size /\
+      Forall2 (fun x y => eqv ltb x y = true) (output ts) (firstn size (smerge seqs)) /\
+      sorted (output ts) /\
+      Permutation (output ts) (firstn size (smerge seqs)) /\
+      length cur = length seqs /\ all_le cur (lens seqs) = true /\ sum cur = size /\
+      Permutation (output ts) (concat (lefts seqs cur)) /\
+      length ts = Nat.min p (total seqs).
+
+  Theorem pmwm_base_unstable sampling (seqs : list (list A)) (size p os : nat) :
+    Forall (fun l => sorted l) seqs -> size <= total seqs -> 1 <= p ->
+    seqmerge_unstable_sorted_spec ltb seqmerge ->
+    bounds_ok sampling seqs size p os ->
+    parallel_result_unstable_full seqs size p (pmwm_base false sampling seqs size p os).
+  Proof.
+    intros Hsorted Hsize Hp Hseq Hb.
+    assert (Hfull : seqmerge_unstable_full_spec ltb seqmerge) by (intros cs Hcs; apply (Hseq cs Hcs)).
+    destruct (pmwm_base_unstable_partial sampling seqs size p os Hsorted Hsize Hp Hfull Hb)
+      as (ts & cur & E & C & P & L1 & L2 & L3 & P2 & L4).
+    pose proof (pmwm_base_unstable_sorted sampling seqs size p os Hsorted Hsize Hp Hseq Hb _ E) as S.
+    cbn [p_threads] in S.
+    exists ts, cur. repeat split; auto.
+    apply (sorted_perm_eqv ltb Hswo); auto.
+    apply sorted_firstn. now apply (smerge_sorted ltb Hswo).
+  Qed.
+
   (** ** The front ends *)
   Lemma pmwm_parallel sw stable sentinels sampling (seqs : list (list A)) size p os :
     goes_parallel sw (length seqs) size p = true ->
     pmwm sw stable sentinels sampling seqs size p os = pmwm_base stable sampling seqs size p os.
   Proof. intros H. unfold PMWM.pmwm. destruct seqs; [reflexivity|]. now rewrite H. Qed.
 
+  (** the fall-back is one call of the sequential merge (with the entry point's Sentinels flag and the
+      caller's sentinel elements); [Hcall] is what C05 proves of that call *)
   Theorem pmwm_fallback_stable sw sentinels sampling (seqs : list (list A)) size p os :
     seqs <> [] -> goes_parallel sw (length seqs) size p = false ->
-    Forall (fun l => sorted l) seqs -> size <= total seqs ->
-    seqmerge_stable_spec_at ltb seqmerge sentinels ->
+    size <= total seqs ->
+    fst (seqmerge true sentinels seqs size) = firstn size (smerge seqs) ->
     exists ts cur, pmwm sw true sentinels sampling seqs size p os =
                    Some {| p_threads := ts; p_cursors := cur; p_ret := size |} /\
                    contiguous ts 0 size /\ output ts = firstn size (smerge seqs) /\ length ts = 1.
   Proof.
-    intros Hne Hg Hsorted Hsize Hseq. unfold PMWM.pmwm. destruct seqs as [|l0 seqs0]; [congruence|].
+    intros Hne Hg Hsize E. unfold PMWM.pmwm. destruct seqs as [|l0 seqs0]; [congruence|].
     rewrite Hg. set (seqs := l0 :: seqs0) in *.
     assert (Hlen : length (concat seqs) = total seqs).
     { clear. unfold total, lens. induction seqs as [|l seqs IH]; simpl; [reflexivity|]. rewrite app_length. lia. }
-    assert (E : fst (seqmerge true sentinels seqs size) = firstn size (smerge seqs)) by (apply Hseq; [assumption|lia]).
     assert (L : length (fst (seqmerge true sentinels seqs size)) = size).
     { rewrite E, firstn_length, smerge_length. lia. }
     eexists _, _. split; [rewrite L; reflexivity|]. simpl. repeat split; auto.
